@@ -60,6 +60,13 @@ def gen_step(rng, i, ops=OPS, big=False, maxdata=None, fails=False, dirs=False):
         st = {"op": op, "path": "/push%d" % i, "size": size, "seed": sd, "src": rng.choice(["bytesio", "bytesio", "file"]),
               "mode": rng.choice([0o100644, 0o100777, 0, 1, 0x7FFFFFFF, 0xFFFFFFFF]), "mtime": rng.choice([0, 1, 1234567890, 0x7FFFFFFF, 0xFFFFFFFF]),
               "cb": rng.choice([None, None, "ok", "raise"])}
+        if fails and rng.random() < 0.06:
+            # the device acknowledges the (only) WRTE of this push later than the host is willing to wait
+            st["slow_ack"] = rng.choice([1.5, 3.0])
+            st["late_stall"] = rng.choice([None, "eof"])
+            st["size"] = rng.choice([0, 1, 100, 1000])
+            st["cb"] = None
+            return st
         if fails and rng.random() < 0.35:
             # the device rejects the transfer; where its FAIL goes relative to its OKAYs is the adversary's choice
             st["fail"] = [rng.choice(["send", "done", ["data", 1], ["data", 2]]), rng.choice([b"denied", b"", b"no space left \xff"]).hex()]
@@ -117,7 +124,14 @@ class Runner(object):
             self.sim.mute_next_opens = 1
             kw = dict(kw, read_timeout_s=1.0, transport_timeout_s=0.5)
             self.sess.core.stall = step.get("late_stall")
+        if step.get("slow_ack"):
+            self.sim.okay_delay = step["slow_ack"]
+            kw = dict(kw, read_timeout_s=1.0, transport_timeout_s=0.5)
+            self.sess.core.stall = step.get("late_stall")
         out = self.sess.call(name, *args, **kw)
+        if step.get("slow_ack"):
+            self.sim.okay_delay = 0.0
+            self.sess.core.stall = None
         if step.get("late_open"):
             self.sess.core.stall = None
             self.sim.mute_streams.clear()       # the late answers arrive during whatever the host does next
@@ -129,7 +143,14 @@ class Runner(object):
             self.sim.mute_next_opens = 1
             kw = dict(kw, read_timeout_s=1.0, transport_timeout_s=0.5)
             self.sess.core.stall = step.get("late_stall")
+        if step.get("slow_ack"):
+            self.sim.okay_delay = step["slow_ack"]
+            kw = dict(kw, read_timeout_s=1.0, transport_timeout_s=0.5)
+            self.sess.core.stall = step.get("late_stall")
         out = await self.sess.acall(name, *args, **kw)
+        if step.get("slow_ack"):
+            self.sim.okay_delay = 0.0
+            self.sess.core.stall = None
         if step.get("late_open"):
             self.sess.core.stall = None
             self.sim.mute_streams.clear()
@@ -159,10 +180,18 @@ class Runner(object):
             kw["timeout_s"] = step["timeout_s"]
         if step.get("transport_timeout_s") is not None:
             kw["transport_timeout_s"] = step["transport_timeout_s"]
+        if step.get("read_timeout_s") is not None:
+            kw["read_timeout_s"] = step["read_timeout_s"]
+        if step.get("refused"):
+            self.sim.refuse.add(prefix + step["cmd"].encode())       # the device answers this OPEN with CLSE (no such service)
         return op, (step["cmd"],), kw, chunks
 
     def judge_shell(self, step, chunks, out):
         op = step["op"]
+        if step.get("refused"):
+            if out.ok:
+                return [self._v("C11", "returned-without-reply", "%s(%s) returned %s although the device refused the stream" % (op, step["cmd"], out.brief(60)))]
+            return []
         if step.get("late_open"):
             if out.ok:
                 return [self._v("C11", "returned-without-reply", "%s(%s) returned %s although the device had not answered its OPEN" % (op, step["cmd"], out.brief(60)))]
@@ -345,6 +374,10 @@ class Runner(object):
         content, cb, cb_calls, t0, n_before = ctx
         plan = self.sim.sync_plan
         t1 = self.sess.clock.now()
+        if step.get("slow_ack"):
+            if out.ok:
+                return [self._v("C11", "returned-without-reply", "push(%s) returned although the device had not acknowledged its WRTE within the limits" % step["path"])]
+            return [] if out.exc_name() in ("AdbTimeoutError", "TcpTimeoutException") else self._raised("C11", step, out)
         failed = [p for p in plan.pushed[n_before:] if p["path"] == step["path"].encode() and p["status"] == "FAIL"]
         if step.get("fail") and failed:       # (a FAIL point beyond the number of DATA records never triggers)
             if out.ok:
@@ -463,8 +496,13 @@ def check_pushed(pushed, expect, mode, mtime, trange, mk):
             if p["mtime"] != (mtime & wire.M32):
                 v.append(mk("C07", "mtime", "DONE carries %r, expected %r" % (p["mtime"], mtime)))
         else:
-            if p["mtime"] is None or not (int(trange[0]) <= p["mtime"] <= int(trange[1])):
-                v.append(mk("C07", "mtime", "DONE carries %r for mtime=0, expected the current time %d..%d" % (p["mtime"], int(trange[0]), int(trange[1]))))
+            # the current time: not before the previous file of the same call was finished, not after this file's DONE arrived
+            prev_done = p.get("prev_done_time")
+            lo = int(trange[0]) if prev_done is None else max(int(trange[0]), int(prev_done))
+            hi = int(p["done_time"]) if p.get("done_time") is not None else int(trange[1])
+            if p["mtime"] is None or not (lo <= p["mtime"] <= hi):
+                v.append(mk("C07", "mtime", "DONE of %r carries %r for mtime=0, expected the current time %d..%d" % (p["path"], p["mtime"], lo, hi)))
+
     return v
 
 
